@@ -55,10 +55,34 @@ CORPUS = [
      [(np.array([-2, 5, 12, -4, 3], dtype="int64"), ((1, 1, 3),))]),
     # F32: repeat over a zero-size chunk
     ("F32", ("repeat", ("slice", ("src", 0), (S(None, -3, 3),)), 2, 0), [(np.array([-1, 6, 13, -3, 4, 11], dtype="int64"), ((2, 4),))]),
+    # F33: consumers that pin their child's advertised grid (sliding-window reduction kernel, low-level reshape) over an elemwise of
+    # differently chunked inputs whose unified chunks change when a slice is pushed through it
+    ("F33a", ("swv", ("astype", ("flip", ("elem", "maximum", ("T", ("src", 0), (2, 0, 1)), ("src", 1)), 2), "float64"), 2, 0, "max"),
+     [_src((6, 4, 3), (6, (1, 3), 3), mul=7, mod=19, off=3), _src((3, 6, 4), (3, 6, (2, 2)), mul=3, add=1, mod=11, off=4)]),
+    ("F33b", ("reshape", ("slice", ("where_out", "multiply", ("elem", "multiply", ("src", 0), ("const", 1)), ("src", 0), ("src", 1), ("src", 2)),
+                          (S(None, 7, 1),)), (1, 7)),
+     [_src((16,), ((15, 1),), mod=19, off=3), (np.arange(16) % 3 > 0, ((16,),)), (np.arange(16, dtype="int64") % 5 - 50, ((1, 15),))]),
     # F21: diff over repeat over a concatenate raises NotImplementedError
     ("F21", ("diff", ("repeat", ("concat", (("reduce", "all", ("src", 0), (0,), True, None), ("src", 1)), 0), 2, 0), 0),
      [(np.array([-1, 6, 13], dtype="int64"), ((1, 2),)), (np.array([True, True]), ((1, 1),))]),
 ]
+
+
+def unstable_chunks_below(da, prog, sources):
+    """does a proper sub-program advertise chunks that optimising it (alone) changes?  (the trigger of finding F33: consumers
+    that pinned the advertised grid of such a child break when a later pushdown re-chunks the child)"""
+    for q in progs.all_nodes(prog)[1:]:
+        if q[0] in ("src", "const", "nparray"):
+            continue
+        try:
+            with warnings.catch_warnings():
+                warnings.simplefilter("ignore")
+                arr = progs.build(q, da, sources, memo={})
+                if hasattr(arr, "expr") and tuple(arr.chunks) != tuple(arr.expr.optimize().chunks):
+                    return True
+        except Exception:  # noqa: BLE001
+            continue
+    return False
 
 
 def run_one(chk, da, prog, sources, want, tag=None):
@@ -121,6 +145,8 @@ def run_one(chk, da, prog, sources, want, tag=None):
         sig["has_broadcast_to"] = any(q[0] == "broadcast_to" for q in progs.all_nodes(small))
         sig["zero_length_result"] = bool(np.size(sw) == 0)
         sig["swv_reduction_below_root"] = any(q[0] == "swv" and q[4] is not None for q in progs.all_nodes(small)[1:])
+        sig["unoptimized_ok"] = bool(unopt)
+        sig["unstable_chunks_below_root"] = unstable_chunks_below(da, small, sources)
         if cls == "raises":
             import re as _re
             sig["error"] = _re.sub(r"[0-9(),\[\]'-]+", "#", sp[0][len("raised "):])[:36]
